@@ -39,14 +39,14 @@ Proof. rewrite map_map. reflexivity. Qed.
 
 (* ------------------------------------------------------------------ reading the ledger *)
 
-Lemma live_from_app n o r l1 l2 : live_from n o r (l1 ++ l2) = live_from (live_from n o r l1) o r l2.
+Lemma live_from_app n o r c l1 l2 : live_from n o r c (l1 ++ l2) = live_from (live_from n o r c l1) o r c l2.
 Proof. revert n. induction l1 as [|e t IH]; intros n; cbn; [reflexivity|]. destruct e; apply IH. Qed.
 
-Lemma live_of_app l e o r : live_of (l ++ e) o r = live_from (live_of l o r) o r e.
+Lemma live_of_app l e o r c : live_of (l ++ e) o r c = live_from (live_of l o r c) o r c e.
 Proof. apply live_from_app. Qed.
 
-Lemma live_clr n o r id (l : list (N * nat)) :
-  live_from n o r (map (fun oc => EClr (fst oc) id) l)
+Lemma live_clr {A} n o r c id (l : list (N * A)) :
+  live_from n o r c (map (fun oc => EClr (fst oc) id) l)
   = match afind o l with Some _ => if Nat.eqb r id then 0 else n | None => n end.
 Proof.
   revert n. induction l as [|[o1 c1] t IH]; intros n; cbn; [reflexivity|].
@@ -55,17 +55,17 @@ Proof.
   - reflexivity.
 Qed.
 
-Lemma live_sub n o r id (l : list (N * nat)) : NoDup (map fst l) ->
-  live_from n o r (map (fun oc => ESub (fst oc) id) l)
-  = match afind o l with Some _ => if Nat.eqb r id then S n else n | None => n end.
+Lemma live_sub n o r c id (l : list (N * (N * nat))) : NoDup (map fst l) ->
+  live_from n o r c (map (fun oc => ESub (fst oc) id (fst (snd oc))) l)
+  = match afind o l with Some (ch, _) => if Nat.eqb r id && N.eqb c ch then S n else n | None => n end.
 Proof.
-  revert n. induction l as [|[o1 c1] t IH]; intros n ND; cbn; [reflexivity|].
+  revert n. induction l as [|[o1 [ch1 c1]] t IH]; intros n ND; cbn; [reflexivity|].
   inversion ND as [|? ? Hn ND']; subst. rewrite IH by assumption.
   destruct (N.eqb_spec o o1) as [->|N0]; cbn; [|reflexivity].
   apply afind_None_notin in Hn. rewrite Hn. reflexivity.
 Qed.
 
-Lemma live_events n o r (l : list ev) : forallb is_event l = true -> live_from n o r l = n.
+Lemma live_events n o r c (l : list ev) : forallb is_event l = true -> live_from n o r c l = n.
 Proof.
   revert n. induction l as [|e t IH]; intros n H; cbn; [reflexivity|].
   cbn in H. apply andb_true_iff in H as [H1 H2]. destruct e; try discriminate. now apply IH.
@@ -73,27 +73,30 @@ Qed.
 
 (* ------------------------------------------------------------------ live registrations read off the state *)
 
-Definition cnt_b (b : bund) (o : N) (r : nat) : nat :=
-  if Nat.eqb r (b_id b) then match afind o (b_mons b) with Some c => c | None => 0 end else 0.
+Definition cnt_e (c : N) (e : option (N * nat)) : nat :=
+  match e with Some (ch, n) => if N.eqb c ch then n else 0 | None => 0 end.
 
-Fixpoint cnt (l : list (key * bund)) (o : N) (r : nat) : nat :=
+Definition cnt_b (b : bund) (o : N) (r : nat) (c : N) : nat :=
+  if Nat.eqb r (b_id b) then cnt_e c (afind o (b_mons b)) else 0.
+
+Fixpoint cnt (l : list (key * bund)) (o : N) (r : nat) (c : N) : nat :=
   match l with
   | [] => 0
-  | (_, b) :: t => cnt_b b o r + cnt t o r
+  | (_, b) :: t => cnt_b b o r c + cnt t o r c
   end.
 
 Definition ids (l : list (key * bund)) : list nat := map (fun kb => b_id (snd kb)) l.
 
-Lemma cnt_app l1 l2 o r : cnt (l1 ++ l2) o r = cnt l1 o r + cnt l2 o r.
+Lemma cnt_app l1 l2 o r c : cnt (l1 ++ l2) o r c = cnt l1 o r c + cnt l2 o r c.
 Proof. induction l1 as [|[k b] t IH]; cbn; [reflexivity|]. rewrite IH. lia. Qed.
 
-Lemma cnt_no_id l o r : ~ In r (ids l) -> cnt l o r = 0.
+Lemma cnt_no_id l o r c : ~ In r (ids l) -> cnt l o r c = 0.
 Proof.
   induction l as [|[k b] t IH]; cbn; [reflexivity|]. intros H. rewrite IH by tauto.
   unfold cnt_b. destruct (Nat.eqb_spec r (b_id b)); [exfalso; apply H; now left|reflexivity].
 Qed.
 
-Lemma cnt_aremove k b l o r : afind k l = Some b -> cnt (aremove k l) o r + cnt_b b o r = cnt l o r.
+Lemma cnt_aremove k b l o r c : afind k l = Some b -> cnt (aremove k l) o r c + cnt_b b o r c = cnt l o r c.
 Proof.
   induction l as [|[k1 b1] t IH]; cbn; [discriminate|].
   destruct (N.eqb k k1); intros E.
@@ -101,7 +104,7 @@ Proof.
   - cbn. specialize (IH E). lia.
 Qed.
 
-Lemma cnt_aset k b b' l o r : afind k l = Some b -> cnt (aset k b' l) o r + cnt_b b o r = cnt l o r + cnt_b b' o r.
+Lemma cnt_aset k b b' l o r c : afind k l = Some b -> cnt (aset k b' l) o r c + cnt_b b o r c = cnt l o r c + cnt_b b' o r c.
 Proof.
   induction l as [|[k1 b1] t IH]; cbn; [discriminate|].
   destruct (N.eqb k k1); intros E.
@@ -133,7 +136,7 @@ Lemma In_ids k b (l : list (key * bund)) : In (k, b) l -> In (b_id b) (ids l).
 Proof. intros H. unfold ids. apply in_map_iff. exists (k, b). now split. Qed.
 
 (* with distinct run numbers only the bundler of run r counts *)
-Lemma cnt_single k b l o : NoDup (ids l) -> In (k, b) l -> cnt l o (b_id b) = cnt_b b o (b_id b).
+Lemma cnt_single k b l o c : NoDup (ids l) -> In (k, b) l -> cnt l o (b_id b) c = cnt_b b o (b_id b) c.
 Proof.
   induction l as [|[k1 b1] t IH]; cbn; [tauto|]. intros ND [E|E]; inversion ND as [|? ? Hn ND']; subst.
   - inversion E; subst. rewrite cnt_no_id by assumption. lia.
@@ -145,12 +148,13 @@ Qed.
 
 Definition binv (b : bund) : Prop :=
   NoDup (map fst (b_mons b)) /\
-  forall o c, In (o, c) (b_mons b) -> c = match b_susp b with O => 1 | S _ => 0 end.
+  forall o ch n, In (o, (ch, n)) (b_mons b) -> n = match b_susp b with O => 1 | S _ => 0 end.
 
-Lemma afind_map_cnt (g : N * nat -> nat) o (l : list (N * nat)) :
-  afind o (map (fun oc => (fst oc, g oc)) l) = match afind o l with Some c => Some (g (o, c)) | None => None end.
+Lemma afind_map_cnt (g : N * (N * nat) -> nat) o (l : list (N * (N * nat))) :
+  afind o (map (fun oc => (fst oc, (fst (snd oc), g oc))) l)
+  = match afind o l with Some (ch, n) => Some (ch, g (o, (ch, n))) | None => None end.
 Proof.
-  induction l as [|[o1 c1] t IH]; cbn; [reflexivity|].
+  induction l as [|[o1 [ch1 c1]] t IH]; cbn; [reflexivity|].
   destruct (N.eqb_spec o o1) as [->|]; [reflexivity|exact IH].
 Qed.
 
@@ -159,16 +163,17 @@ Proof. unfold suspend_b. now destruct (b_susp b). Qed.
 Lemma restore_b_id b : b_id (fst (restore_b b)) = b_id b.
 Proof. unfold restore_b. destruct (b_susp b) as [|[|n]]; reflexivity. Qed.
 
-Lemma suspend_b_cnt b o r :
-  live_from (cnt_b b o r) o r (snd (suspend_b b)) = cnt_b (fst (suspend_b b)) o r.
+Lemma suspend_b_cnt b o r c :
+  live_from (cnt_b b o r c) o r c (snd (suspend_b b)) = cnt_b (fst (suspend_b b)) o r c.
 Proof.
   unfold suspend_b. destruct (b_susp b) eqn:Es; cbn [fst snd]; [|reflexivity].
   unfold clr_all. rewrite live_clr. unfold cnt_b. cbn [b_id b_mons].
-  rewrite (afind_map_cnt (fun _ => 0)). destruct (Nat.eqb r (b_id b)); destruct (afind o (b_mons b)); reflexivity.
+  rewrite (afind_map_cnt (fun _ => 0)). destruct (Nat.eqb r (b_id b)); destruct (afind o (b_mons b)) as [[ch n]|]; cbn;
+    try reflexivity. now destruct (N.eqb c ch).
 Qed.
 
-Lemma suspend_b_other b o r n : r <> b_id b ->
-  live_from n o r (snd (suspend_b b)) = n /\ cnt_b (fst (suspend_b b)) o r = 0 /\ cnt_b b o r = 0.
+Lemma suspend_b_other b o r c n : r <> b_id b ->
+  live_from n o r c (snd (suspend_b b)) = n /\ cnt_b (fst (suspend_b b)) o r c = 0 /\ cnt_b b o r c = 0.
 Proof.
   intros N0. unfold cnt_b. rewrite suspend_b_id. destruct (Nat.eqb_spec r (b_id b)); [congruence|].
   split; [|split; reflexivity]. unfold suspend_b. destruct (b_susp b); cbn [snd]; [|reflexivity].
@@ -176,36 +181,42 @@ Proof.
   destruct (Nat.eqb_spec r (b_id b)); [congruence|reflexivity].
 Qed.
 
-Lemma restore_b_cnt b o r : binv b ->
-  live_from (cnt_b b o r) o r (snd (restore_b b)) = cnt_b (fst (restore_b b)) o r.
+Lemma restore_b_cnt b o r c : binv b ->
+  live_from (cnt_b b o r c) o r c (snd (restore_b b)) = cnt_b (fst (restore_b b)) o r c.
 Proof.
   intros [ND _]. unfold restore_b. destruct (b_susp b) as [|[|n]] eqn:Es; cbn [fst snd]; try reflexivity.
   unfold sub_all. rewrite live_sub by assumption. unfold cnt_b. cbn [b_id b_mons].
-  rewrite (afind_map_cnt (fun oc => S (snd oc))). destruct (Nat.eqb r (b_id b)); destruct (afind o (b_mons b)); reflexivity.
+  rewrite (afind_map_cnt (fun oc => S (snd (snd oc)))).
+  destruct (Nat.eqb r (b_id b)); destruct (afind o (b_mons b)) as [[ch m]|]; cbn; try reflexivity.
+  now destruct (N.eqb c ch).
 Qed.
 
-Lemma restore_b_other b o r n : binv b -> r <> b_id b ->
-  live_from n o r (snd (restore_b b)) = n /\ cnt_b (fst (restore_b b)) o r = 0 /\ cnt_b b o r = 0.
+Lemma restore_b_other b o r c n : binv b -> r <> b_id b ->
+  live_from n o r c (snd (restore_b b)) = n /\ cnt_b (fst (restore_b b)) o r c = 0 /\ cnt_b b o r c = 0.
 Proof.
   intros [ND _] N0. unfold cnt_b. rewrite restore_b_id. destruct (Nat.eqb_spec r (b_id b)); [congruence|].
   split; [|split; reflexivity]. unfold restore_b. destruct (b_susp b) as [|[|m]]; cbn [snd]; try reflexivity.
-  unfold sub_all. rewrite live_sub by assumption. destruct (afind o (b_mons b)); [|reflexivity].
+  unfold sub_all. rewrite live_sub by assumption. destruct (afind o (b_mons b)) as [[ch m]|]; [|reflexivity].
   destruct (Nat.eqb_spec r (b_id b)); [congruence|reflexivity].
 Qed.
 
-Lemma In_map_cnt (g : N * nat -> nat) o c (l : list (N * nat)) :
-  In (o, c) (map (fun oc => (fst oc, g oc)) l) -> exists c0, In (o, c0) l /\ c = g (o, c0).
+Lemma In_map_cnt (g : N * (N * nat) -> nat) o ch n (l : list (N * (N * nat))) :
+  In (o, (ch, n)) (map (fun oc => (fst oc, (fst (snd oc), g oc))) l) -> exists n0, In (o, (ch, n0)) l /\ n = g (o, (ch, n0)).
 Proof.
-  intros H. apply in_map_iff in H as [[o0 c0] [E H]]. cbn in E. inversion E; subst. eauto.
+  intros H. apply in_map_iff in H as [[o0 [ch0 n0]] [E H]]. cbn in E. inversion E; subst. eauto.
 Qed.
+
+Lemma keys_map_cnt (g : N * (N * nat) -> nat) (l : list (N * (N * nat))) :
+  map fst (map (fun oc => (fst oc, (fst (snd oc), g oc))) l) = map fst l.
+Proof. now rewrite map_map. Qed.
 
 Lemma suspend_b_binv b : binv b -> binv (fst (suspend_b b)).
 Proof.
-  intros [ND Hc]. unfold suspend_b. destruct (b_susp b) eqn:Es; cbn [fst]; split; cbn [b_mons b_susp].
-  - now rewrite map_map.
-  - intros o c H. apply (In_map_cnt (fun _ => 0)) in H as (c0 & _ & ->). reflexivity.
+  intros [ND Hc]. unfold suspend_b. destruct (b_susp b) as [|k] eqn:Es; cbn [fst]; split; cbn [b_mons b_susp].
+  - now rewrite (keys_map_cnt (fun _ => 0)).
+  - intros o ch m H. apply (In_map_cnt (fun _ => 0)) in H as (n0 & _ & ->). reflexivity.
   - assumption.
-  - intros o c H. now apply Hc in H.
+  - intros o ch m H. now apply Hc in H.
 Qed.
 
 Lemma restore_b_binv b : binv b -> binv (fst (restore_b b)).
@@ -213,9 +224,9 @@ Proof.
   intros [ND Hc]. unfold restore_b. destruct (b_susp b) as [|[|n]] eqn:Es; cbn [fst].
   - split; [assumption|]. now rewrite Es.
   - split; cbn [b_mons b_susp].
-    + now rewrite map_map.
-    + intros o c H. apply (In_map_cnt (fun oc => S (snd oc))) in H as (c0 & H & ->). apply Hc in H. now subst.
-  - split; cbn [b_mons b_susp]; [assumption|]. intros o c H. now apply Hc in H.
+    + now rewrite (keys_map_cnt (fun oc => S (snd (snd oc)))).
+    + intros o ch m H. apply (In_map_cnt (fun oc => S (snd (snd oc)))) in H as (n0 & H & ->). apply Hc in H. now subst.
+  - split; cbn [b_mons b_susp]; [assumption|]. intros o ch m H. now apply Hc in H.
 Qed.
 
 (* ------------------------------------------------------------------ all bundlers *)
@@ -224,9 +235,9 @@ Section ForAll.
 Variable f : bund -> bund * list ev.
 Hypothesis f_id : forall b, b_id (fst (f b)) = b_id b.
 Hypothesis f_binv : forall b, binv b -> binv (fst (f b)).
-Hypothesis f_cnt : forall b o r, binv b -> live_from (cnt_b b o r) o r (snd (f b)) = cnt_b (fst (f b)) o r.
-Hypothesis f_other : forall b o r n, binv b -> r <> b_id b ->
-  live_from n o r (snd (f b)) = n /\ cnt_b (fst (f b)) o r = 0 /\ cnt_b b o r = 0.
+Hypothesis f_cnt : forall b o r c, binv b -> live_from (cnt_b b o r c) o r c (snd (f b)) = cnt_b (fst (f b)) o r c.
+Hypothesis f_other : forall b o r c n, binv b -> r <> b_id b ->
+  live_from n o r c (snd (f b)) = n /\ cnt_b (fst (f b)) o r c = 0 /\ cnt_b b o r c = 0.
 
 Lemma for_all_keys l : map fst (fst (for_all f l)) = map fst l.
 Proof.
@@ -249,30 +260,30 @@ Proof.
   - destruct (IH E) as (b & H & ->). exists b. split; [now right|reflexivity].
 Qed.
 
-Lemma for_all_other l o r n : (forall k b, In (k, b) l -> binv b) -> ~ In r (ids l) ->
-  live_from n o r (snd (for_all f l)) = n.
+Lemma for_all_other l o r c n : (forall k b, In (k, b) l -> binv b) -> ~ In r (ids l) ->
+  live_from n o r c (snd (for_all f l)) = n.
 Proof.
   revert n. induction l as [|[k b] t IH]; intros n Hb Hn; cbn; [reflexivity|].
-  destruct (f_other b o r n (Hb k b (or_introl eq_refl))) as (H1 & _ & _); [intros ->; apply Hn; now left|].
+  destruct (f_other b o r c n (Hb k b (or_introl eq_refl))) as (H1 & _ & _); [intros ->; apply Hn; now left|].
   destruct (f b) as [b' e]. destruct (for_all f t) as [t' e'] eqn:Et. cbn [fst snd] in *.
   rewrite live_from_app, H1. apply IH; [intros; eapply Hb; right; eauto|]. intros H; apply Hn. now right.
 Qed.
 
-Lemma for_all_cnt l o r : (forall k b, In (k, b) l -> binv b) -> NoDup (ids l) ->
-  live_from (cnt l o r) o r (snd (for_all f l)) = cnt (fst (for_all f l)) o r.
+Lemma for_all_cnt l o r c : (forall k b, In (k, b) l -> binv b) -> NoDup (ids l) ->
+  live_from (cnt l o r c) o r c (snd (for_all f l)) = cnt (fst (for_all f l)) o r c.
 Proof.
   induction l as [|[k b] t IH]; intros Hb ND; cbn; [reflexivity|].
   inversion ND as [|? ? Hn ND']; subst.
   assert (Hbb : binv b) by (eapply Hb; now left).
   assert (Hbt : forall k0 b0, In (k0, b0) t -> binv b0) by (intros; eapply Hb; right; eauto).
-  pose proof (for_all_other t o r) as Hot. pose proof (for_all_ids t) as Hids.
-  pose proof (f_cnt b o r Hbb) as Hc. pose proof (f_other b o r) as Ho. specialize (IH Hbt ND').
+  pose proof (for_all_other t o r c) as Hot. pose proof (for_all_ids t) as Hids.
+  pose proof (f_cnt b o r c Hbb) as Hc. pose proof (f_other b o r c) as Ho. specialize (IH Hbt ND').
   destruct (f b) as [b' e]. destruct (for_all f t) as [t' e'] eqn:Et. cbn [fst snd] in *.
   rewrite live_from_app. cbn [cnt].
   destruct (Nat.eq_dec r (b_id b)) as [->|N0].
   - rewrite (cnt_no_id t) by assumption. rewrite (cnt_no_id t') by (now rewrite Hids).
     rewrite !Nat.add_0_r, Hc. now apply Hot.
-  - destruct (Ho (cnt_b b o r + cnt t o r) Hbb N0) as (H1 & H2 & H3). rewrite H1, H2, H3. exact IH.
+  - destruct (Ho (cnt_b b o r c + cnt t o r c) Hbb N0) as (H1 & H2 & H3). rewrite H1, H2, H3. exact IH.
 Qed.
 
 End ForAll.
@@ -284,18 +295,18 @@ Record Inv (x : state) (L : list ev) : Prop := {
   iIds : NoDup (ids (runs x));
   iLt : forall k b, In (k, b) (runs x) -> b_id b < nrun x;
   iB : forall k b, In (k, b) (runs x) -> binv b;
-  iL : forall o r, live_of L o r = cnt (runs x) o r
+  iL : forall o r c, live_of L o r c = cnt (runs x) o r c
 }.
 
 Lemma inv_init : Inv init [].
 Proof. constructor; cbn; try constructor; try tauto; reflexivity. Qed.
 
-Lemma binv_append b o : binv b -> afind o (b_mons b) = None ->
-  binv {| b_id := b_id b; b_mons := b_mons b ++ [(o, match b_susp b with O => 1 | S _ => 0 end)]; b_susp := b_susp b |}.
+Lemma binv_append b o c : binv b -> afind o (b_mons b) = None ->
+  binv {| b_id := b_id b; b_mons := b_mons b ++ [(o, (c, match b_susp b with O => 1 | S _ => 0 end))]; b_susp := b_susp b |}.
 Proof.
   intros [ND Hc] Ho. split; cbn [b_mons b_susp].
   - rewrite map_app. cbn. apply NoDup_app_last; [assumption|]. now apply afind_None_notin.
-  - intros o' c H. apply in_app_iff in H as [H|[H|[]]]; [now apply Hc in H|]. now inversion H.
+  - intros o' ch n H. apply in_app_iff in H as [H|[H|[]]]; [now apply Hc in H|]. now inversion H.
 Qed.
 
 Lemma binv_remove b o : binv b ->
@@ -303,17 +314,17 @@ Lemma binv_remove b o : binv b ->
 Proof.
   intros [ND Hc]. split; cbn [b_mons b_susp].
   - now apply NoDup_keys_aremove.
-  - intros o' c H. apply In_aremove in H. now apply Hc in H.
+  - intros o' ch n H. apply In_aremove in H. now apply Hc in H.
 Qed.
 
 Lemma inv_step x L a : Inv x L -> Inv (fst (step x a)) (L ++ snd (step x a)).
 Proof.
   intros I. pose proof (iK _ _ I) as hK. pose proof (iIds _ _ I) as hI. pose proof (iLt _ _ I) as hLt.
   pose proof (iB _ _ I) as hB. pose proof (iL _ _ I) as hL.
-  destruct a as [k|k|k o|k o| | | | | |o v]; cbn [step].
+  destruct a as [k|k|k o c0|k o| | | | | |o c0 v]; cbn [step].
   - (* OpenRun *)
     destruct (afind k (runs x)) as [b|] eqn:Ek; cbn [fst snd].
-    + constructor; auto. intros o r. now rewrite live_of_app, hL.
+    + constructor; auto. intros o r c. now rewrite live_of_app, hL.
     + constructor; cbn [runs nrun].
       * rewrite map_app. cbn. apply NoDup_app_last; [assumption|]. now apply afind_None_notin.
       * unfold ids. rewrite map_app. cbn. apply NoDup_app_last; [assumption|].
@@ -321,7 +332,7 @@ Proof.
       * intros k' b' H. apply in_app_iff in H as [H|[H|[]]]; [apply hLt in H; lia|]. inversion H; subst. cbn. lia.
       * intros k' b' H. apply in_app_iff in H as [H|[H|[]]]; [eapply hB; eauto|]. inversion H; subst.
         split; cbn; [constructor|tauto].
-      * intros o r. rewrite live_of_app, hL, cnt_app. cbn. unfold cnt_b. cbn.
+      * intros o r c. rewrite live_of_app, hL, cnt_app. cbn. unfold cnt_b. cbn.
         destruct (Nat.eqb r (nrun x)); lia.
   - (* CloseRun *)
     destruct (afind k (runs x)) as [b|] eqn:Ek; cbn [fst snd].
@@ -331,37 +342,36 @@ Proof.
       * now apply NoDup_ids_aremove.
       * intros k' b' H. apply In_aremove in H. now apply hLt in H.
       * intros k' b' H. apply In_aremove in H. eapply hB; eauto.
-      * intros o r. rewrite live_of_app, live_from_app, hL. unfold clr_all. rewrite live_clr. cbn.
-        pose proof (cnt_aremove k b (runs x) o r Ek) as Hc.
+      * intros o r c. rewrite live_of_app, live_from_app, hL. unfold clr_all. rewrite live_clr. cbn.
+        pose proof (cnt_aremove k b (runs x) o r c Ek) as Hc.
         destruct (Nat.eqb_spec r (b_id b)) as [->|N0].
-        -- pose proof (cnt_single k b (runs x) o hI Hin) as Hs. rewrite Hs in *.
+        -- pose proof (cnt_single k b (runs x) o c hI Hin) as Hs. rewrite Hs in *.
            unfold cnt_b in *. rewrite Nat.eqb_refl in *.
-           destruct (afind o (b_mons b)); lia.
+           destruct (afind o (b_mons b)); cbn in *; lia.
         -- unfold cnt_b in Hc. destruct (Nat.eqb_spec r (b_id b)); [congruence|]. destruct (afind o (b_mons b)); lia.
-    + constructor; auto. intros o r. now rewrite live_of_app, hL.
+    + constructor; auto. intros o r c. now rewrite live_of_app, hL.
   - (* Monitor *)
     destruct (afind k (runs x)) as [b|] eqn:Ek; cbn [fst snd]; [|constructor; auto; intros; now rewrite live_of_app, hL].
     destruct (afind o (b_mons b)) as [c|] eqn:Eo; cbn [fst snd]; [constructor; auto; intros; now rewrite live_of_app, hL|].
     pose proof (afind_Some_In _ _ _ Ek) as Hin. pose proof (hB _ _ Hin) as Hbb.
-    set (b' := {| b_id := b_id b; b_mons := b_mons b ++ [(o, match b_susp b with O => 1 | S _ => 0 end)]; b_susp := b_susp b |}).
+    set (b' := {| b_id := b_id b; b_mons := b_mons b ++ [(o, (c0, match b_susp b with O => 1 | S _ => 0 end))]; b_susp := b_susp b |}).
     constructor; cbn [runs nrun].
     + now apply NoDup_keys_aset.
     + rewrite (ids_aset_same k b b'); auto.
     + intros k' b0 H. apply In_aset in H as [H|H]; [inversion H; subst; cbn; eapply hLt; eauto|now apply hLt in H].
     + intros k' b0 H. apply In_aset in H as [H|H]; [inversion H; subst; now apply binv_append|eapply hB; eauto].
-    + intros o' r. rewrite live_of_app, live_from_app, hL.
-      pose proof (cnt_aset k b b' (runs x) o' r Ek) as Hc.
-      assert (Hb' : cnt_b b' o' r = cnt_b b o' r +
-                    (if Nat.eqb r (b_id b) && N.eqb o' o then match b_susp b with O => 1 | S _ => 0 end else 0)).
-      { unfold cnt_b. cbn [b_id b_mons b']. destruct (Nat.eqb r (b_id b)); cbn; [|reflexivity].
+    + intros o' r c. rewrite live_of_app, live_from_app, hL.
+      pose proof (cnt_aset k b b' (runs x) o' r c Ek) as Hc.
+      assert (Hb' : cnt_b b' o' r c = cnt_b b o' r c +
+                    (if N.eqb o' o && Nat.eqb r (b_id b) && N.eqb c c0 then match b_susp b with O => 1 | S _ => 0 end else 0)).
+      { unfold cnt_b. cbn [b_id b_mons b']. destruct (Nat.eqb r (b_id b)); cbn; [|now rewrite andb_false_r].
         rewrite afind_app_last. destruct (N.eqb_spec o' o) as [->|N0].
-        - rewrite Eo. lia.
-        - destruct (afind o' (b_mons b)); lia. }
-      destruct (b_susp b); cbn; rewrite (N.eqb_sym o' o), (andb_comm (Nat.eqb r (b_id b))) in *;
-        destruct (N.eqb o o' && Nat.eqb r (b_id b)); lia.
+        - rewrite Eo. cbn. destruct (N.eqb c c0); lia.
+        - destruct (afind o' (b_mons b)); cbn; lia. }
+      destruct (b_susp b); cbn; destruct (N.eqb o' o && Nat.eqb r (b_id b) && N.eqb c c0); lia.
   - (* Unmonitor *)
     destruct (afind k (runs x)) as [b|] eqn:Ek; cbn [fst snd]; [|constructor; auto; intros; now rewrite live_of_app, hL].
-    destruct (afind o (b_mons b)) as [c|] eqn:Eo; cbn [fst snd]; [|constructor; auto; intros; now rewrite live_of_app, hL].
+    destruct (afind o (b_mons b)) as [e0|] eqn:Eo; cbn [fst snd]; [|constructor; auto; intros; now rewrite live_of_app, hL].
     pose proof (afind_Some_In _ _ _ Ek) as Hin. pose proof (hB _ _ Hin) as Hbb.
     set (b' := {| b_id := b_id b; b_mons := aremove o (b_mons b); b_susp := b_susp b |}).
     constructor; cbn [runs nrun].
@@ -369,77 +379,77 @@ Proof.
     + rewrite (ids_aset_same k b b'); auto.
     + intros k' b0 H. apply In_aset in H as [H|H]; [inversion H; subst; cbn; eapply hLt; eauto|now apply hLt in H].
     + intros k' b0 H. apply In_aset in H as [H|H]; [inversion H; subst; now apply binv_remove|eapply hB; eauto].
-    + intros o' r. rewrite live_of_app, hL. cbn.
-      pose proof (cnt_aset k b b' (runs x) o' r Ek) as Hc.
+    + intros o' r c. rewrite live_of_app, hL. cbn.
+      pose proof (cnt_aset k b b' (runs x) o' r c Ek) as Hc.
       destruct (N.eqb_spec o' o) as [->|N0]; cbn.
       * destruct (Nat.eqb_spec r (b_id b)) as [->|N1].
-        -- pose proof (cnt_single k b (runs x) o hI Hin) as Hs. rewrite Hs in Hc. unfold cnt_b in Hc. cbn [b_id b_mons b'] in Hc.
-           rewrite Nat.eqb_refl in Hc. rewrite afind_aremove_eq in Hc by apply Hbb. lia.
+        -- pose proof (cnt_single k b (runs x) o c hI Hin) as Hs. rewrite Hs in Hc. unfold cnt_b in Hc. cbn [b_id b_mons b'] in Hc.
+           rewrite Nat.eqb_refl in Hc. rewrite afind_aremove_eq in Hc by apply Hbb. cbn in Hc. lia.
         -- unfold cnt_b in Hc. cbn [b_id b'] in Hc. destruct (Nat.eqb_spec r (b_id b)); [congruence|]. lia.
       * unfold cnt_b in Hc. cbn [b_id b_mons b'] in Hc. rewrite afind_aremove_neq in Hc by assumption. lia.
   - (* PauseBlock *)
     pose proof (for_all_keys suspend_b (runs x)) as Hk. pose proof (for_all_ids suspend_b suspend_b_id (runs x)) as Hi.
     pose proof (for_all_In suspend_b (runs x)) as HIn.
-    pose proof (fun o r => for_all_cnt suspend_b suspend_b_id (fun b o r _ => suspend_b_cnt b o r)
-                                       (fun b o r n _ => suspend_b_other b o r n) (runs x) o r hB hI) as Hc.
+    pose proof (fun o r c => for_all_cnt suspend_b suspend_b_id (fun b o r c _ => suspend_b_cnt b o r c)
+                                       (fun b o r c n _ => suspend_b_other b o r c n) (runs x) o r c hB hI) as Hc.
     destruct (for_all suspend_b (runs x)) as [rs e]. cbn [fst snd] in *.
     constructor; cbn [runs nrun].
     + now rewrite Hk.
     + now rewrite Hi.
     + intros k b H. destruct (HIn _ _ H) as (b0 & H0 & ->). rewrite suspend_b_id. eapply hLt; eauto.
     + intros k b H. destruct (HIn _ _ H) as (b0 & H0 & ->). apply suspend_b_binv. eapply hB; eauto.
-    + intros o r. rewrite live_of_app, hL. apply Hc.
+    + intros o r c. rewrite live_of_app, hL. apply Hc.
   - (* ResumeWake *)
     pose proof (for_all_keys restore_b (runs x)) as Hk. pose proof (for_all_ids restore_b restore_b_id (runs x)) as Hi.
     pose proof (for_all_In restore_b (runs x)) as HIn.
-    pose proof (fun o r => for_all_cnt restore_b restore_b_id (fun b o r Hb => restore_b_cnt b o r Hb)
-                                       (fun b o r n Hb => restore_b_other b o r n Hb) (runs x) o r hB hI) as Hc.
+    pose proof (fun o r c => for_all_cnt restore_b restore_b_id (fun b o r c Hb => restore_b_cnt b o r c Hb)
+                                       (fun b o r c n Hb => restore_b_other b o r c n Hb) (runs x) o r c hB hI) as Hc.
     destruct (for_all restore_b (runs x)) as [rs e]. cbn [fst snd] in *.
     constructor; cbn [runs nrun].
     + now rewrite Hk.
     + now rewrite Hi.
     + intros k b H. destruct (HIn _ _ H) as (b0 & H0 & ->). rewrite restore_b_id. eapply hLt; eauto.
     + intros k b H. destruct (HIn _ _ H) as (b0 & H0 & ->). apply restore_b_binv. eapply hB; eauto.
-    + intros o r. rewrite live_of_app, hL. apply Hc.
+    + intros o r c. rewrite live_of_app, hL. apply Hc.
   - (* SuspendStart *)
     pose proof (for_all_keys suspend_b (runs x)) as Hk. pose proof (for_all_ids suspend_b suspend_b_id (runs x)) as Hi.
     pose proof (for_all_In suspend_b (runs x)) as HIn.
-    pose proof (fun o r => for_all_cnt suspend_b suspend_b_id (fun b o r _ => suspend_b_cnt b o r)
-                                       (fun b o r n _ => suspend_b_other b o r n) (runs x) o r hB hI) as Hc.
+    pose proof (fun o r c => for_all_cnt suspend_b suspend_b_id (fun b o r c _ => suspend_b_cnt b o r c)
+                                       (fun b o r c n _ => suspend_b_other b o r c n) (runs x) o r c hB hI) as Hc.
     destruct (for_all suspend_b (runs x)) as [rs e]. cbn [fst snd] in *.
     constructor; cbn [runs nrun].
     + now rewrite Hk.
     + now rewrite Hi.
     + intros k b H. destruct (HIn _ _ H) as (b0 & H0 & ->). rewrite suspend_b_id. eapply hLt; eauto.
     + intros k b H. destruct (HIn _ _ H) as (b0 & H0 & ->). apply suspend_b_binv. eapply hB; eauto.
-    + intros o r. rewrite live_of_app, hL. apply Hc.
+    + intros o r c. rewrite live_of_app, hL. apply Hc.
   - (* SuspendResume *)
     pose proof (for_all_keys restore_b (runs x)) as Hk. pose proof (for_all_ids restore_b restore_b_id (runs x)) as Hi.
     pose proof (for_all_In restore_b (runs x)) as HIn.
-    pose proof (fun o r => for_all_cnt restore_b restore_b_id (fun b o r Hb => restore_b_cnt b o r Hb)
-                                       (fun b o r n Hb => restore_b_other b o r n Hb) (runs x) o r hB hI) as Hc.
+    pose proof (fun o r c => for_all_cnt restore_b restore_b_id (fun b o r c Hb => restore_b_cnt b o r c Hb)
+                                       (fun b o r c n Hb => restore_b_other b o r c n Hb) (runs x) o r c hB hI) as Hc.
     destruct (for_all restore_b (runs x)) as [rs e]. cbn [fst snd] in *.
     constructor; cbn [runs nrun].
     + now rewrite Hk.
     + now rewrite Hi.
     + intros k b H. destruct (HIn _ _ H) as (b0 & H0 & ->). rewrite restore_b_id. eapply hLt; eauto.
     + intros k b H. destruct (HIn _ _ H) as (b0 & H0 & ->). apply restore_b_binv. eapply hB; eauto.
-    + intros o r. rewrite live_of_app, hL. apply Hc.
+    + intros o r c. rewrite live_of_app, hL. apply Hc.
   - (* Finalize *)
     cbn [fst snd]. constructor; cbn [runs nrun]; [constructor|constructor|cbn; tauto|cbn; tauto|].
-    intros o r. rewrite live_of_app, hL. cbn.
+    intros o r c. rewrite live_of_app, hL. cbn.
     clear hK hLt hL I. induction (runs x) as [|[k b] t IH]; cbn; [reflexivity|].
     inversion hI as [|? ? Hn ND']; subst. rewrite live_from_app. unfold clr_all at 1. rewrite live_clr.
     assert (Hbt : forall k0 b0, In (k0, b0) t -> binv b0) by (intros; eapply hB; right; eauto).
     specialize (IH ND' Hbt).
     destruct (Nat.eqb_spec r (b_id b)) as [->|N0].
     + rewrite (cnt_no_id t) in * by assumption. unfold cnt_b. rewrite Nat.eqb_refl.
-      destruct (afind o (b_mons b)); [exact IH|]. rewrite Nat.add_0_r. exact IH.
+      destruct (afind o (b_mons b)); [exact IH|]. cbn. exact IH.
     + unfold cnt_b. destruct (Nat.eqb_spec r (b_id b)); [congruence|]. cbn. destruct (afind o (b_mons b)); exact IH.
   - (* Update *)
-    cbn [fst snd]. constructor; auto. intros o' r. rewrite live_of_app, hL. apply live_events.
+    cbn [fst snd]. constructor; auto. intros o' r c. rewrite live_of_app, hL. apply live_events.
     clear. induction (runs x) as [|[k b] t IH]; cbn; [reflexivity|]. rewrite forallb_app, IH, andb_true_r.
-    destruct (afind o (b_mons b)) as [c|]; [|reflexivity]. induction c; cbn; auto.
+    destruct (afind o (b_mons b)) as [[ch n]|]; [|reflexivity]. destruct (N.eqb c0 ch); [|reflexivity]. induction n; cbn; auto.
 Qed.
 
 Lemma inv_run h : forall x L, Inv x L -> Inv (fst (run_from x h)) (L ++ snd (run_from x h)).
@@ -455,8 +465,9 @@ Proof. exact (inv_run h _ _ inv_init). Qed.
 
 (* ------------------------------------------------------------------ model state vs specification state *)
 
-Definition gb (b : bund) : nat * list N := (b_id b, map fst (b_mons b)).
-Definition gmap (l : list (key * bund)) : list (key * (nat * list N)) := map (fun kb => (fst kb, gb (snd kb))) l.
+Definition gm (l : list (N * (N * nat))) : list (N * N) := map (fun oc => (fst oc, fst (snd oc))) l.
+Definition gb (b : bund) : nat * list (N * N) := (b_id b, gm (b_mons b)).
+Definition gmap (l : list (key * bund)) : list (key * (nat * list (N * N))) := map (fun kb => (fst kb, gb (snd kb))) l.
 
 Definition srel (x : state) (s : sstate) : Prop := sruns s = gmap (runs x) /\ snrun s = nrun x.
 Definition drel (x : state) (s : sstate) : Prop := forall k b, In (k, b) (runs x) -> b_susp b = depth s.
@@ -473,15 +484,17 @@ Proof.
   - intros E. now rewrite IH.
 Qed.
 
-Lemma mem_N_keys o (l : list (N * nat)) : mem_N o (map fst l) = match afind o l with Some _ => true | None => false end.
-Proof.
-  unfold mem_N. induction l as [|[o1 c1] t IH]; cbn; [reflexivity|]. destruct (N.eqb o o1); [reflexivity|exact IH].
-Qed.
+Lemma afind_gm o l : afind o (gm l) = option_map fst (afind o l).
+Proof. unfold gm. apply (afind_map_vals fst). Qed.
 
-Lemma remove_N_keys o (l : list (N * nat)) : remove_N o (map fst l) = map fst (aremove o l).
-Proof.
-  induction l as [|[o1 c1] t IH]; cbn; [reflexivity|]. destruct (N.eqb o o1); cbn; [reflexivity|now rewrite IH].
-Qed.
+Lemma aremove_gm o l : aremove o (gm l) = gm (aremove o l).
+Proof. unfold gm. apply (aremove_map_vals fst). Qed.
+
+Lemma mon_on_gm o c l : mon_on o c (gm l) = match afind o l with Some (ch, _) => N.eqb c ch | None => false end.
+Proof. unfold mon_on. rewrite afind_gm. now destruct (afind o l) as [[ch n]|]. Qed.
+
+Lemma gm_map_cnt (g : N * (N * nat) -> nat) l : gm (map (fun oc => (fst oc, (fst (snd oc), g oc))) l) = gm l.
+Proof. unfold gm. now rewrite map_map. Qed.
 
 Lemma gmap_for_all f l : (forall b, gb (fst (f b)) = gb b) -> gmap (fst (for_all f l)) = gmap l.
 Proof.
@@ -490,27 +503,30 @@ Proof.
 Qed.
 
 Lemma gb_suspend b : gb (fst (suspend_b b)) = gb b.
-Proof. unfold suspend_b, gb. destruct (b_susp b); cbn; [|reflexivity]. now rewrite map_map. Qed.
+Proof. unfold suspend_b, gb. destruct (b_susp b); cbn [fst b_id b_mons]; [|reflexivity]. now rewrite (gm_map_cnt (fun _ => 0)). Qed.
 Lemma gb_restore b : gb (fst (restore_b b)) = gb b.
-Proof. unfold restore_b, gb. destruct (b_susp b) as [|[|n]]; cbn; try reflexivity. now rewrite map_map. Qed.
+Proof.
+  unfold restore_b, gb. destruct (b_susp b) as [|[|n]]; cbn [fst b_id b_mons]; try reflexivity.
+  now rewrite (gm_map_cnt (fun oc => S (snd (snd oc)))).
+Qed.
 
 Lemma srel_step x s a : srel x s -> srel (fst (step x a)) (sstep s a).
 Proof.
   intros [Hr Hn]. unfold srel.
   assert (Hf : forall k, afind k (sruns s) = option_map gb (afind k (runs x))).
   { intros k. rewrite Hr. unfold gmap. apply afind_map_vals. }
-  destruct a as [k|k|k o|k o| | | | | |o v]; cbn [step sstep]; rewrite ?Hf.
+  destruct a as [k|k|k o c0|k o| | | | | |o c0 v]; cbn [step sstep]; rewrite ?Hf.
   - destruct (afind k (runs x)) as [b|]; cbn [option_map fst runs nrun sruns snrun]; [now split|].
     split; [|congruence]. rewrite Hr. unfold gmap. rewrite map_app. cbn. now rewrite Hn.
   - destruct (afind k (runs x)) as [b|] eqn:Ek; cbn [fst runs nrun sruns snrun]; (split; [|assumption]); rewrite Hr; unfold gmap.
     + now rewrite aremove_map_vals.
     + rewrite aremove_map_vals. now rewrite aremove_absent.
   - destruct (afind k (runs x)) as [b|] eqn:Ek; cbn [option_map fst runs nrun sruns snrun]; [|now split].
-    unfold gb. cbn iota. rewrite mem_N_keys.
-    destruct (afind o (b_mons b)) as [c|]; cbn [fst runs nrun sruns snrun]; [now split|].
-    split; [|assumption]. rewrite Hr. unfold gmap. rewrite <- aset_map_vals. unfold gb. cbn. now rewrite map_app.
+    unfold gb. cbn iota. rewrite afind_gm.
+    destruct (afind o (b_mons b)) as [c|]; cbn [option_map fst runs nrun sruns snrun]; [now split|].
+    split; [|assumption]. rewrite Hr. unfold gmap. rewrite <- aset_map_vals. unfold gb, gm. cbn. now rewrite map_app.
   - destruct (afind k (runs x)) as [b|] eqn:Ek; cbn [option_map fst runs nrun sruns snrun]; [|now split].
-    unfold gb. cbn iota. rewrite remove_N_keys.
+    unfold gb. cbn iota. rewrite aremove_gm.
     destruct (afind o (b_mons b)) as [c|] eqn:Eo; cbn [fst runs nrun sruns snrun]; (split; [|assumption]).
     + rewrite Hr. unfold gmap. rewrite <- aset_map_vals. reflexivity.
     + rewrite aremove_absent by assumption. rewrite aset_same; [assumption|]. rewrite Hf, Ek. reflexivity.
@@ -534,30 +550,32 @@ Proof. apply srel_run. split; reflexivity. Qed.
 
 (* ------------------------------------------------------------------ live registrations, all histories *)
 
-Lemma cnt_le_1 l o r : NoDup (ids l) -> (forall k b, In (k, b) l -> binv b) -> cnt l o r <= 1.
+Lemma cnt_le_1 l o r c : NoDup (ids l) -> (forall k b, In (k, b) l -> binv b) -> cnt l o r c <= 1.
 Proof.
   induction l as [|[k b] t IH]; cbn; intros ND Hb; [lia|]. inversion ND as [|? ? Hn ND']; subst.
   assert (Hbt : forall k0 b0, In (k0, b0) t -> binv b0) by (intros; eapply Hb; right; eauto).
   specialize (IH ND' Hbt). unfold cnt_b. destruct (Nat.eqb_spec r (b_id b)) as [->|N0]; [|lia].
-  rewrite cnt_no_id by assumption. destruct (afind o (b_mons b)) as [c|] eqn:Eo; [|lia].
-  apply afind_Some_In in Eo. destruct (Hb k b (or_introl eq_refl)) as [_ Hc]. apply Hc in Eo. destruct (b_susp b); lia.
+  rewrite cnt_no_id by assumption. destruct (afind o (b_mons b)) as [[ch n]|] eqn:Eo; cbn; [|lia].
+  apply afind_Some_In in Eo. destruct (Hb k b (or_introl eq_refl)) as [_ Hc]. apply Hc in Eo.
+  destruct (N.eqb c ch); destruct (b_susp b); lia.
 Qed.
 
-Lemma cnt_unmonitored l o r :
-  existsb (fun kro => Nat.eqb (fst (snd kro)) r && mem_N o (snd (snd kro))) (gmap l) = false -> cnt l o r = 0.
+Lemma cnt_unmonitored l o r c :
+  existsb (fun kro => Nat.eqb (fst (snd kro)) r && mon_on o c (snd (snd kro))) (gmap l) = false -> cnt l o r c = 0.
 Proof.
   induction l as [|[k b] t IH]; [reflexivity|]. cbn [gmap map existsb fst snd gb cnt]. fold (gmap t).
   intros H. apply orb_false_iff in H as [H1 H2].
-  rewrite IH by assumption. unfold cnt_b. rewrite mem_N_keys in H1. rewrite Nat.eqb_sym in H1.
-  destruct (Nat.eqb r (b_id b)); [|reflexivity]. cbn in H1. destruct (afind o (b_mons b)); [discriminate|reflexivity].
+  rewrite IH by assumption. unfold cnt_b. rewrite mon_on_gm in H1. rewrite Nat.eqb_sym in H1.
+  destruct (Nat.eqb r (b_id b)); [|reflexivity]. cbn in H1. destruct (afind o (b_mons b)) as [[ch n]|]; cbn; [|reflexivity].
+  now rewrite H1.
 Qed.
 
-Theorem never_two_registrations h o r : live_of (mlog h) o r <= 1.
+Theorem never_two_registrations h o r c : live_of (mlog h) o r c <= 1.
 Proof.
   pose proof (inv_history h) as I. rewrite (iL _ _ I). apply cnt_le_1; [apply (iIds _ _ I)|apply (iB _ _ I)].
 Qed.
 
-Theorem no_residual_subscription h o r : monitored (srun h) r o = false -> live_of (mlog h) o r = 0.
+Theorem no_residual_subscription h o r c : monitored (srun h) r o c = false -> live_of (mlog h) o r c = 0.
 Proof.
   intros H. pose proof (inv_history h) as I. rewrite (iL _ _ I). apply cnt_unmonitored.
   destruct (srel_history h) as [Hr _]. unfold monitored in H. now rewrite Hr in H.
@@ -571,14 +589,15 @@ Proof.
   intros; apply H; now right.
 Qed.
 
-Theorem update_calls_live_registrations h o v :
-  step (mstate h) (Update o v)
-  = (mstate h, flat_map (fun kb => repeat (EEvent (b_id (snd kb)) o v) (live_of (mlog h) o (b_id (snd kb))))
+Theorem update_calls_live_registrations h o c v :
+  step (mstate h) (Update o c v)
+  = (mstate h, flat_map (fun kb => repeat (EEvent (b_id (snd kb)) o v) (live_of (mlog h) o (b_id (snd kb)) c))
                         (runs (mstate h))).
 Proof.
   pose proof (inv_history h) as I. cbn [step]. f_equal. apply flat_map_ext_in. intros [k b] Hin. cbn [snd].
   rewrite (iL _ _ I), (cnt_single k b) by (try apply (iIds _ _ I); assumption).
-  unfold cnt_b. rewrite Nat.eqb_refl. now destruct (afind o (b_mons b)).
+  unfold cnt_b, cnt_e. rewrite Nat.eqb_refl. destruct (afind o (b_mons b)) as [[ch n]|]; [|reflexivity].
+  now destruct (N.eqb c ch).
 Qed.
 
 (* ------------------------------------------------------------------ outside class g: suspended counters are the depth *)
@@ -594,7 +613,7 @@ Lemma drel_step x s a L : Inv x L -> srel x s -> drel x s ->
   drel (fst (step x a)) (sstep s a).
 Proof.
   intros I [Hr Hn] D Hwf. unfold drel in *.
-  destruct a as [k|k|k o|k o| | | | | |o v]; cbn [step sstep].
+  destruct a as [k|k|k o c0|k o| | | | | |o c0 v]; cbn [step sstep].
   - rewrite Hr in *. unfold gmap in *. rewrite afind_map_vals in *.
     destruct (afind k (runs x)) as [b|]; cbn [option_map fst runs depth] in *; [assumption|].
     intros k' b' H. apply in_app_iff in H as [H|[H|[]]]; [now apply D in H|]. inversion H; subst. cbn.
@@ -602,8 +621,8 @@ Proof.
   - destruct (afind k (runs x)) as [b|]; cbn [fst runs depth]; [|assumption].
     intros k' b' H. apply In_aremove in H. now apply D in H.
   - destruct (afind k (runs x)) as [b|] eqn:Ek; cbn [fst]; [|rewrite Hr; unfold gmap; rewrite afind_map_vals, Ek; exact D].
-    rewrite Hr. unfold gmap. rewrite afind_map_vals, Ek. cbn [option_map]. unfold gb. rewrite mem_N_keys.
-    destruct (afind o (b_mons b)) as [c|]; cbn [fst runs depth]; [assumption|].
+    rewrite Hr. unfold gmap. rewrite afind_map_vals, Ek. cbn [option_map]. unfold gb. rewrite afind_gm.
+    destruct (afind o (b_mons b)) as [c|]; cbn [option_map fst runs depth]; [assumption|].
     intros k' b' H. apply In_aset in H as [H|H]; [|now apply D in H]. inversion H; subst. cbn.
     apply afind_Some_In in Ek. now apply D in Ek.
   - destruct (afind k (runs x)) as [b|] eqn:Ek; cbn [fst]; [|rewrite Hr; unfold gmap; rewrite afind_map_vals, Ek; exact D].
@@ -624,22 +643,22 @@ Proof.
 Qed.
 
 (* what an update emits, given binv and susp = depth *)
-Lemma update_events l s o v :
+Lemma update_events l s o c v :
   (forall k b, In (k, b) l -> binv b /\ b_susp b = depth s) ->
   flat_map (fun kb => match afind o (b_mons (snd kb)) with
-                      | Some c => repeat (EEvent (b_id (snd kb)) o v) c
+                      | Some (ch, n) => if N.eqb c ch then repeat (EEvent (b_id (snd kb)) o v) n else []
                       | None => []
                       end) l
   = match depth s with
-    | O => flat_map (fun kro => if mem_N o (snd (snd kro)) then [EEvent (fst (snd kro)) o v] else []) (gmap l)
+    | O => flat_map (fun kro => if mon_on o c (snd (snd kro)) then [EEvent (fst (snd kro)) o v] else []) (gmap l)
     | S _ => []
     end.
 Proof.
   induction l as [|[k b] t IH]; intros H; cbn [flat_map gmap map fst snd gb].
   - now destruct (depth s).
   - fold (gmap t). rewrite IH by (intros k' b' Hin; apply (H k' b'); now right). destruct (H k b (or_introl eq_refl)) as [[_ Hc] Hs].
-    rewrite mem_N_keys. destruct (afind o (b_mons b)) as [c|] eqn:Eo.
-    + apply afind_Some_In in Eo. apply Hc in Eo. rewrite Hs in Eo. subst c. now destruct (depth s).
+    rewrite mon_on_gm. destruct (afind o (b_mons b)) as [[ch n]|] eqn:Eo.
+    + apply afind_Some_In in Eo. apply Hc in Eo. rewrite Hs in Eo. subst n. destruct (N.eqb c ch); now destruct (depth s).
     + now destruct (depth s).
 Qed.
 
@@ -667,25 +686,26 @@ Proof. unfold restore_b. destruct (b_susp b) as [|[|n]]; cbn; try reflexivity. a
 Lemma no_events_finalize (l : list (key * bund)) : no_events (flat_map (fun kb => clr_all (snd kb)) l).
 Proof. induction l as [|[k b] t IH]; cbn; [reflexivity|]. apply no_events_app; [apply no_events_clr|exact IH]. Qed.
 
-Lemma filter_events_repeat l o v :
+Lemma filter_events_repeat l o c v :
   filter is_event (flat_map (fun kb : key * bund => match afind o (b_mons (snd kb)) with
-                      | Some c => repeat (EEvent (b_id (snd kb)) o v) c
+                      | Some (ch, n) => if N.eqb c ch then repeat (EEvent (b_id (snd kb)) o v) n else []
                       | None => []
                       end) l)
   = flat_map (fun kb : key * bund => match afind o (b_mons (snd kb)) with
-                      | Some c => repeat (EEvent (b_id (snd kb)) o v) c
+                      | Some (ch, n) => if N.eqb c ch then repeat (EEvent (b_id (snd kb)) o v) n else []
                       | None => []
                       end) l.
 Proof.
   induction l as [|[k b] t IH]; cbn; [reflexivity|]. rewrite filter_app, IH. f_equal.
-  destruct (afind o (b_mons b)) as [c|]; [|reflexivity]. induction c; cbn; [reflexivity|now f_equal].
+  destruct (afind o (b_mons b)) as [[ch n]|]; [|reflexivity]. destruct (N.eqb c ch); [|reflexivity].
+  induction n; cbn; [reflexivity|now f_equal].
 Qed.
 
 Lemma step_events x s a L : Inv x L -> srel x s -> drel x s ->
-  filter is_event (snd (step x a)) = match a with Update o v => spec_events s o v | _ => [] end.
+  filter is_event (snd (step x a)) = match a with Update o c v => spec_events s o c v | _ => [] end.
 Proof.
   intros I [Hr Hn] D.
-  destruct a as [k|k|k o|k o| | | | | |o v]; cbn [step].
+  destruct a as [k|k|k o c0|k o| | | | | |o c0 v]; cbn [step].
   - now destruct (afind k (runs x)).
   - destruct (afind k (runs x)); cbn [snd]; [|reflexivity]. apply no_events_app; [apply no_events_clr|reflexivity].
   - destruct (afind k (runs x)) as [b|]; [|reflexivity]. destruct (afind o (b_mons b)); [reflexivity|]. cbn [snd].
@@ -728,25 +748,25 @@ Proof.
   specialize (IH _ _ _ I1 R1 D1 Hw2). destruct (run_from x1 h) as [x2 e2]. exact IH.
 Qed.
 
-Lemma cnt_running l s o r : NoDup (ids l) -> (forall k b, In (k, b) l -> binv b /\ b_susp b = depth s) ->
-  cnt l o r = if Nat.eqb (depth s) 0 && existsb (fun kro => Nat.eqb (fst (snd kro)) r && mem_N o (snd (snd kro))) (gmap l)
+Lemma cnt_running l s o r c : NoDup (ids l) -> (forall k b, In (k, b) l -> binv b /\ b_susp b = depth s) ->
+  cnt l o r c = if Nat.eqb (depth s) 0 && existsb (fun kro => Nat.eqb (fst (snd kro)) r && mon_on o c (snd (snd kro))) (gmap l)
               then 1 else 0.
 Proof.
   induction l as [|[k b] t IH]; cbn [gmap map existsb fst snd gb cnt]; intros ND H; [now rewrite andb_false_r|].
   fold (gmap t). inversion ND as [|? ? Hn ND']; subst. rewrite IH by (try assumption; intros k' b' Hin; apply (H k' b'); now right).
-  destruct (H k b (or_introl eq_refl)) as [[_ Hc] Hs]. unfold cnt_b. rewrite mem_N_keys, (Nat.eqb_sym (b_id b) r).
+  destruct (H k b (or_introl eq_refl)) as [[_ Hc] Hs]. unfold cnt_b. rewrite mon_on_gm, (Nat.eqb_sym (b_id b) r).
   destruct (Nat.eqb_spec r (b_id b)) as [->|N0]; cbn [andb orb]; [|reflexivity].
-  assert (Ht : existsb (fun kro => Nat.eqb (fst (snd kro)) (b_id b) && mem_N o (snd (snd kro))) (gmap t) = false).
+  assert (Ht : existsb (fun kro => Nat.eqb (fst (snd kro)) (b_id b) && mon_on o c (snd (snd kro))) (gmap t) = false).
   { apply not_true_is_false. intros Ht. apply existsb_exists in Ht as [[k' [r' os]] [Hin E]]. cbn in E.
     apply andb_true_iff in E as [E _]. apply Nat.eqb_eq in E. subst r'. apply Hn.
     unfold gmap in Hin. apply in_map_iff in Hin as [[k0 b0] [E0 Hin]]. inversion E0; subst. eapply In_ids; eauto. }
-  rewrite Ht, andb_false_r, orb_false_r. destruct (afind o (b_mons b)) as [c|] eqn:Eo.
-  - apply afind_Some_In in Eo. apply Hc in Eo. rewrite Hs in Eo. subst c. destruct (depth s); reflexivity.
+  rewrite Ht, andb_false_r, orb_false_r. destruct (afind o (b_mons b)) as [[ch n]|] eqn:Eo; cbn.
+  - apply afind_Some_In in Eo. apply Hc in Eo. rewrite Hs in Eo. subst n. destruct (N.eqb c ch); destruct (depth s); reflexivity.
   - now rewrite andb_false_r.
 Qed.
 
-Theorem live_iff_running h o r : finding_C41_g h = false ->
-  live_of (mlog h) o r = if Nat.eqb (depth (srun h)) 0 && monitored (srun h) r o then 1 else 0.
+Theorem live_iff_running h o r c : finding_C41_g h = false ->
+  live_of (mlog h) o r c = if Nat.eqb (depth (srun h)) 0 && monitored (srun h) r o c then 1 else 0.
 Proof.
   intros Hg. pose proof (inv_history h) as I. rewrite (iL _ _ I).
   pose proof (drel_run h init sinit [] inv_init (conj eq_refl eq_refl) (fun k b (H : In (k, b) []) => match H with end) Hg) as D.
